@@ -1,11 +1,11 @@
 from collections import defaultdict
-from collections.abc import Callable
+from collections.abc import Callable, Iterator
 from dataclasses import dataclass, field
 from typing import cast
 
 from minimalloc import Buffer, Problem  # pyright: ignore[reportMissingTypeStubs]
 from xdsl.context import Context
-from xdsl.dialects import arith, builtin, func, llvm
+from xdsl.dialects import arith, builtin, func, llvm, memref
 from xdsl.dialects.memref import DeallocOp
 from xdsl.ir import Operation, OpResult, Sequence, SSAValue
 from xdsl.parser import IndexType, IntegerAttr, StringAttr
@@ -23,6 +23,16 @@ from xdsl.utils.hints import isa
 from snaxc.accelerators.acc_context import AccContext
 from snaxc.dialects import snax
 from snaxc.util.snax_memory import L1, SnaxMemory
+
+# operations whose results are another view of (a part of) the memory of their operand
+VIEW_LIKE_OPS = (
+    builtin.UnrealizedConversionCastOp,
+    memref.SubviewOp,
+    memref.CastOp,
+    memref.MemorySpaceCastOp,
+    memref.ReinterpretCastOp,
+    snax.LayoutCast,
+)
 
 
 def create_memref_struct(
@@ -234,6 +244,14 @@ class MiniMallocate(RewritePattern):
                 assert next_op is not None
             return next_op
 
+        def get_users_through_views(val: SSAValue) -> Iterator[Operation]:
+            """All operations using the value, or a cast / view derived from it."""
+            for use in val.uses:
+                yield use.operation
+                if isinstance(use.operation, VIEW_LIKE_OPS):
+                    for result in use.operation.results:
+                        yield from get_users_through_views(result)
+
         if len(func_op.body.blocks) != 1:
             return
 
@@ -262,14 +280,9 @@ class MiniMallocate(RewritePattern):
                 buffers.append(buffer)
                 buffer_ops[buffer.id] = op
 
-                # add uses to the use list
-                for use in op.results[0].uses:
-                    use_op = get_top_level_op(use.operation)
-                    uses[use_op].append(buffer)
-                    if isinstance(use.operation, builtin.UnrealizedConversionCastOp):
-                        for cast_use in use.operation.results[0].uses:
-                            cast_use_op = get_top_level_op(cast_use.operation)
-                            uses[cast_use_op].append(buffer)
+                # add uses to the use list, following casts and views of the buffer
+                for user in get_users_through_views(op.results[0]):
+                    uses[get_top_level_op(user)].append(buffer)
 
             if op in uses:
                 # udpate lifetime of buffer
